@@ -2,37 +2,40 @@ import GV.Model.Sched
 import GV.Spec.GoChanRefine
 import GV.Proofs.ChanInv
 import GV.Model.SchedInv
+import GV.Proofs.SchedInv
 /-
-  GV.Props.C03 — channels, select and the goroutine scheduler (compiler/prelude/goroutines.js).
+  GV.Props.C03 — channels, select and the goroutine scheduler (compiler/prelude/goroutines.js, with the two
+  round-2 repairs: the `$select` send entry takes `closed`; `close(nil)` panics).
 
   All theorems quantify over ARBITRARY event sequences `evs` run from the initial runtime state
   (any number of goroutines, channels, capacities and steps; every nondeterministic choice is part of the events).
 
-  Proved at full strength: `chan_shape`, `fifo_conservation`, `select_choice_ready`, `pick_in_range`.
-  False of the current code, negation proved with a concrete witness + strongest partial statement:
-  `close_semantics` (select-send entry throws inside `$close`), `nil_never_proceeds` (`close(nil)` marks
-  `$chanNil` closed), `chan_shape_design` (the design's "recvQ ≠ [] → sendQ = []" is too strong: one select may
-  queue a receive and a send entry on the same channel).
-  Stated, NOT proved (kept as `def … : Prop`, validated at run time on every state the correspondence visits by the
-  executable `globalInv`): `no_lost_wakeup`, `awake_count`, `refines_go`.
+  Proved at full strength: `chan_shape`, `fifo_conservation`, `select_choice_ready`, `select_default`,
+  `close_semantics` (incl. the wake results), `nil_never_proceeds`, `no_lost_wakeup` (queue entries ↔ sleeping
+  goroutines, run queue), `awake_count`, `deadlock_report_iff`.
+  `chan_shape_design` (the design's "recvQ ≠ [] → sendQ = []") is too strong — counterexample proved.
+  Stated, NOT proved: `refines_go` (decided per step by `GV.Spec.GoChanRefine.verdict` on every step the
+  correspondence executes), `blocked_not_possible` (the liveness half of no_lost_wakeup).
 -/
 namespace GV.Props.C03
-open GV.Chan GV.Sched GV.Proofs.ChanInv GV.SchedInv
+open GV.Chan GV.Sched GV.Proofs.ChanInv GV.SchedInv GV.Proofs.SchedInv
 
 def reach (evs : List Event) : State := runAll GV.Sched.init evs
 
 /-! ## queue shape -/
 
 /-- buffer bounded by the capacity; queued receivers only on an empty buffer; queued senders only on a full
-    buffer; the nil channel never holds anything. -/
+    buffer; a closed channel has no queued goroutine; the nil channel never holds anything and is never closed. -/
 theorem chan_shape (evs : List Event) : ∀ ch ∈ (reach evs).chans,
     ch.buf.length ≤ ch.cap ∧ (ch.recvQ ≠ [] → ch.buf = []) ∧ (ch.sendQ ≠ [] → ch.buf.length = ch.cap) ∧
-    (ch.isNil = true → ch.sendQ = [] ∧ ch.recvQ = [] ∧ ch.buf = []) := by
+    (ch.closed = true → ch.sendQ = [] ∧ ch.recvQ = []) ∧
+    (ch.isNil = true → ch.sendQ = [] ∧ ch.recvQ = [] ∧ ch.buf = [] ∧ ch.closed = false) := by
   intro ch hm
   have h := allInv_mem (runAll_inv evs _ init_inv) hm
-  refine ⟨h.buf_le, h.recv_buf, fun hs => Nat.le_antisymm h.buf_le (h.send_full hs), fun hn => ?_⟩
+  have hce : CE ch := allCE_mem (runAll_ce evs _ init_ce) hm
+  refine ⟨h.buf_le, h.recv_buf, fun hs => Nat.le_antisymm h.buf_le (h.send_full hs), hce, fun hn => ?_⟩
   have := h.nil_empty hn
-  exact ⟨this.1, this.2.1, this.2.2.1⟩
+  exact ⟨this.1, this.2.1, this.2.2.1, h.nil_open hn⟩
 
 /-- the design's stronger clause (a channel never has queued receivers and queued senders at once) -/
 def chan_shape_design : Prop := ∀ evs : List Event, ∀ ch ∈ (reach evs).chans, ch.recvQ ≠ [] → ch.sendQ = []
@@ -123,180 +126,203 @@ theorem select_choice_ready (s : State) (cases : List Case) (pick : Nat) :
   have hk : ready.getD (pickIndex pick ready.length) 0 = k := by omega
   exact ⟨hmem, by omega, by rw [hk]; exact h3⟩
 
+/-- the default index reported by the scan is a default clause -/
+theorem scan_default (s : State) (cases : List Case) : ∀ (i0 i : Nat), (scan s cases i0).2.1 = some i →
+    i0 ≤ i ∧ cases.getD (i - i0) .dflt = .dflt := by
+  induction cases with
+  | nil => intro i0 i h; simp [scan] at h
+  | cons c rest ih =>
+    intro i0 i h
+    unfold scan at h
+    generalize hr : scan s rest (i0 + 1) = r at h
+    obtain ⟨rd, dsel, thr⟩ := r
+    have lift : dsel = some i → i0 ≤ i ∧ (c :: rest).getD (i - i0) .dflt = .dflt := by
+      intro hd
+      have := ih (i0 + 1) i (by rw [hr]; exact hd)
+      refine ⟨by omega, ?_⟩
+      have e : i - i0 = (i - (i0 + 1)) + 1 := by omega
+      rw [e]; simpa using this.2
+    cases c with
+    | dflt =>
+      simp only at h
+      cases dsel with
+      | none => simp only [Option.some.injEq] at h; subst h; simp
+      | some j => exact lift (by simpa using h)
+    | recv c' => simp only at h; exact lift h
+    | send c' v =>
+      simp only at h
+      split at h
+      · exact lift h
+      · exact lift h
+
+/-- `select_default`: with no ready case the default clause is taken without touching the state; with no ready
+    case and no default the goroutine blocks; with a ready case the default is never taken
+    (`select_choice_ready`: the chosen clause is a ready communication). -/
+theorem select_default (s : State) (g : Nat) (cases : List Case) (pick : Nat)
+    (hready : (scan s cases 0).1 = []) (hthr : (scan s cases 0).2.2 = false) :
+    (∀ i, (scan s cases 0).2.1 = some i → cases.getD i .dflt = .dflt ∧ doSelect s g cases pick = (s, .selected i none)) ∧
+    ((scan s cases 0).2.1 = none → (doSelect s g cases pick).2 = .blocked) := by
+  have hdef := scan_default s cases 0
+  unfold doSelect
+  generalize scan s cases 0 = r at hready hthr hdef
+  obtain ⟨ready, dsel, thr⟩ := r
+  simp only at hready hthr
+  subst hready; subst hthr
+  constructor
+  · intro i hi
+    simp only at hi; subst hi
+    have hd : cases.getD i .dflt = .dflt := by simpa using (hdef i rfl).2
+    refine ⟨hd, ?_⟩
+    have hd' : cases[i]?.getD Case.dflt = Case.dflt := by simpa [List.getD_eq_getElem?_getD] using hd
+    simp [hd']
+  · intro hn
+    simp only at hn; subst hn
+    simp
+
 /-! ## close -/
 
-/-- what Go demands of `close(c)` executed by the running goroutine on an open, non-nil channel: the closer
-    proceeds, the channel is closed and nobody stays queued on it. -/
-def CloseOK (s : State) (c : Nat) : Prop :=
-  (step s (.close c)).2 = .ok ∧ (getC (step s (.close c)).1 c).closed = true ∧
-  (getC (step s (.close c)).1 c).sendQ = [] ∧ (getC (step s (.close c)).1 c).recvQ = []
-
-def close_semantics : Prop := ∀ (evs : List Event) (c : Nat),
-  (reach evs).cur ≠ none → c < (reach evs).chans.length → (getC (reach evs) c).isNil = false →
-  (getC (reach evs) c).closed = false → CloseOK (reach evs) c
-
-/-- the 3-event witness (after the set-up `go; make(chan,0); go`): g0 blocks in `select { case c <- 5: case <-nil: }`,
-    the scheduler runs g1, g1 closes c — the CLOSER gets "send on closed channel". -/
-theorem close_semantics_counterexample : ¬ close_semantics := by
-  intro h
-  have := h [.spawn, .makechan 0, .spawn, .select [.send 1 5, .recv 0] 0, .next] 1 (by decide) (by decide) (by decide) (by decide)
-  revert this; unfold CloseOK; decide
-
-/-- no `$select` send entry is queued on channel `c` -/
-abbrev NoSelectSend (s : State) (c : Nat) : Prop := ∀ e ∈ (getC s c).sendQ, e.sel = none
-
-theorem closeSenders_plain : ∀ (n : Nat) (s : State) (c : Nat), c < s.chans.length →
-    (∀ e ∈ (getC s c).sendQ, e.sel = none) → (getC s c).sendQ.length ≤ n →
-    (closeSenders n s c).2 = false ∧ (getC (closeSenders n s c).1 c).sendQ = [] ∧
-    (getC (closeSenders n s c).1 c).closed = (getC s c).closed ∧
-    (closeSenders n s c).1.chans.length = s.chans.length := by
-  intro n; induction n with
-  | zero =>
-    intro s c _ _ hl
-    unfold closeSenders
-    exact ⟨rfl, List.eq_nil_of_length_eq_zero (Nat.le_zero.mp hl), rfl, rfl⟩
-  | succ n ih =>
-    intro s c hc hp hl
-    unfold closeSenders; simp only
-    split
-    · next heq => exact ⟨rfl, heq, rfl, rfl⟩
-    · next e sq heq =>
-      have he : e.sel = none := hp e (by rw [heq]; simp)
-      have hf : fireSend (setC s c { getC s c with sendQ := sq }) c e true
-          = some (schedule (setG (setC s c { getC s c with sendQ := sq }) e.gid
-              { getG (setC s c { getC s c with sendQ := sq }) e.gid with wake := .sent true }) e.gid) := by
-        unfold fireSend; simp only [he]
-      rw [hf]; simp only
-      have hch : ∀ x : State, x.chans = (setC s c { getC s c with sendQ := sq }).chans →
-          getC x c = { getC s c with sendQ := sq } := by
-        intro x hx; simp [getC_def, hx, hc]
-      have hx := hch _ (by simp : (schedule (setG (setC s c { getC s c with sendQ := sq }) e.gid
-              { getG (setC s c { getC s c with sendQ := sq }) e.gid with wake := .sent true }) e.gid).chans = _)
-      have := ih (schedule (setG (setC s c { getC s c with sendQ := sq }) e.gid
-              { getG (setC s c { getC s c with sendQ := sq }) e.gid with wake := .sent true }) e.gid) c
-        (by simp; exact hc)
-        (by rw [hx]; intro e' he'; exact hp e' (by rw [heq]; simp [he']))
-        (by rw [hx]; rw [heq] at hl; simp at hl ⊢; omega)
-      rw [hx] at this
-      refine ⟨this.1, this.2.1, this.2.2.1, ?_⟩
-      rw [this.2.2.2]; simp
-
-theorem closeRecvs_empties : ∀ (n : Nat) (s : State) (c : Nat), (getC s c).recvQ.length ≤ n →
-    (getC (closeRecvs n s c) c).recvQ = [] := by
-  intro n; induction n with
-  | zero => intro s c hl; simp only [closeRecvs]; exact List.eq_nil_of_length_eq_zero (Nat.le_zero.mp hl)
-  | succ n ih =>
-    intro s c hl
-    unfold closeRecvs; simp only
-    split
-    · next heq => exact heq
-    · next e rq heq =>
-      apply ih
-      have hc : c < s.chans.length := by
-        apply Decidable.byContradiction; intro hn
-        have : getC s c = Chan.nil := by
-          simp [getC_def, List.getD_eq_getElem?_getD, List.getElem?_eq_none (Nat.le_of_not_lt hn)]
-        rw [this] at heq; cases heq
-      have hg : getC (setC s c { getC s c with recvQ := rq }) c = { getC s c with recvQ := rq } := by
-        simp [getC_def, hc]
-      have h1 := (fireRecv_shrinks (setC s c { getC s c with recvQ := rq }) e 0 false c).recvQ.length_le
-      rw [← getC_def, ← getC_def, hg] at h1
-      dsimp only at h1
-      rw [heq] at hl; simp at hl; omega
-
-theorem closeRecvs_keeps (n : Nat) (s : State) (c : Nat) :
-    (getC (closeRecvs n s c) c).sendQ.length ≤ (getC s c).sendQ.length := by
-  have := (closeRecvs_shrinks n s c c).sendQ.length_le
-  simpa [getC_def] using this
-
-/-- **close_semantics_partial**: for every history, closing an open non-nil channel on which no `$select` send
-    entry is queued lets the closer proceed, marks the channel closed and leaves nobody queued on it. -/
-theorem close_semantics_partial (evs : List Event) (c : Nat)
+/-- **close_semantics** (full strength, repaired runtime): for every history, `close(c)` by the running goroutine on
+    an open non-nil channel lets the closer proceed, closes the channel, leaves nobody queued on it, makes every
+    queued receiver runnable with (zero,false) and every queued sender — plain or select case — runnable with the
+    "send on closed channel" panic pending in ITS OWN goroutine; goroutines that were awake are untouched. -/
+theorem close_semantics (evs : List Event) (c : Nat)
     (hcur : (reach evs).cur ≠ none) (hc : c < (reach evs).chans.length)
-    (hopen : (getC (reach evs) c).closed = false) (hsel : NoSelectSend (reach evs) c) :
-    CloseOK (reach evs) c := by
+    (hnn : (getC (reach evs) c).isNil = false) (hopen : (getC (reach evs) c).closed = false) :
+    (step (reach evs) (.close c)).2 = .ok ∧ CloseSpec (reach evs) (step (reach evs) (.close c)).1 c := by
+  have hg : GInv (reach evs) := runAll_ginv evs _ init_ginv
   generalize reach evs = s at *
-  unfold CloseOK step
-  cases hcu : s.cur with
-  | none => exact absurd hcu hcur
-  | some g =>
-    simp only [validChan, hc, decide_true, if_true]
-    unfold doClose; simp only [hopen]
-    have hlen : c < (setC s c { getC s c with closed := true }).chans.length := by simp; exact hc
-    have hg : getC (setC s c { getC s c with closed := true }) c = { getC s c with closed := true } := by
-      simp [getC_def, hc]
-    have := closeSenders_plain (getC s c).sendQ.length (setC s c { getC s c with closed := true }) c hlen
-      (by rw [hg]; exact hsel) (by rw [hg]; exact Nat.le_refl _)
-    generalize hcs : closeSenders (getC s c).sendQ.length (setC s c { getC s c with closed := true }) c = r at this
-    obtain ⟨s2, thr⟩ := r
-    simp only at this
-    obtain ⟨h1, h2, h3, _⟩ := this
-    subst h1
-    simp only [Bool.false_eq_true, if_false]
-    refine ⟨trivial, ?_, ?_, closeRecvs_empties _ _ _ (Nat.le_refl _)⟩
-    · have := (closeRecvs_shrinks (getC s2 c).recvQ.length s2 c c).closedMono
-      rw [hg] at h3
-      exact this h3
-    · have := closeRecvs_keeps (getC s2 c).recvQ.length s2 c
-      rw [h2] at this; exact List.eq_nil_of_length_eq_zero (Nat.le_zero.mp this)
-
-/-- the hypotheses of `close_semantics_partial` are satisfiable by a non-trivial state: two plain senders and
-    then a closer on an unbuffered channel -/
-example : ∃ evs c, (reach evs).cur ≠ none ∧ c < (reach evs).chans.length ∧ (getC (reach evs) c).closed = false ∧
-    NoSelectSend (reach evs) c ∧ (getC (reach evs) c).sendQ.length = 2 :=
-  ⟨[.spawn, .makechan 0, .spawn, .spawn, .send 1 7, .next, .send 1 8, .next], 1, by decide, by decide, by decide, by decide, by decide⟩
-
-/-! ## nil channels -/
-
-/-- operations on a nil channel never proceed: the goroutine blocks -/
-def nil_never_proceeds : Prop := ∀ (evs : List Event) (c v : Nat),
-  (reach evs).cur ≠ none → c < (reach evs).chans.length → (getC (reach evs) c).isNil = true →
-  (step (reach evs) (.recv c)).2 = .blocked ∧ (step (reach evs) (.send c v)).2 = .blocked
-
-/-- `close(nil)` does not panic and marks the shared `$chanNil` closed: the next receive on a nil channel proceeds
-    (into a TypeError) -/
-theorem nil_never_proceeds_counterexample : ¬ nil_never_proceeds := by
-  intro h
-  have := h [.spawn, .close 0] 0 1 (by decide) (by decide) (by decide)
-  revert this; decide
-
-/-- **nil_never_proceeds_partial**: in every history in which the nil channel object has not been closed,
-    receive and send on a nil channel block (and, by `chan_shape`, leave no queue entry: they can never be woken). -/
-theorem nil_never_proceeds_partial (evs : List Event) (c v : Nat)
-    (hcur : (reach evs).cur ≠ none) (hc : c < (reach evs).chans.length) (hnil : (getC (reach evs) c).isNil = true)
-    (hopen : (getC (reach evs) c).closed = false) :
-    (step (reach evs) (.recv c)).2 = .blocked ∧ (step (reach evs) (.send c v)).2 = .blocked := by
-  have hinv : ChanInv (getC (reach evs) c) := runAll_inv evs _ init_inv c
-  generalize reach evs = s at *
-  have hq := hinv.nil_empty hnil
   unfold step
   cases hcu : s.cur with
   | none => exact absurd hcu hcur
   | some g =>
     simp only [validChan, hc, decide_true, if_true]
-    constructor
+    exact doClose_spec s c hg hc hnn hopen
+
+/-- later sends on a closed channel panic, later receives drain the buffer and then yield (zero,false) -/
+theorem closed_later_ops (s : State) (g c v : Nat) (hcl : (getC s c).closed = true) (hq : (getC s c).sendQ = [])
+    (hnn : (getC s c).isNil = false) :
+    doSend s g c v = (s, .panic .sendClosed) ∧
+    ((getC s c).buf = [] → doRecv s g c = (s, .recvd 0 false)) ∧
+    (∀ x b, (getC s c).buf = x :: b → (doRecv s g c).2 = .recvd x true) := by
+  refine ⟨by unfold doSend; simp [hcl], ?_, ?_⟩
+  · intro hb; unfold doRecv recvTail; simp [hq, hb, hcl, hnn]
+  · intro x b hb; unfold doRecv recvTail; simp [hq, hb]
+
+/-! ## nil channels -/
+
+/-- **nil_never_proceeds** (full strength, repaired runtime): in every history, receive and send on a nil channel
+    block (and by `chan_shape` leave no queue entry, so nothing can ever wake them), `close` panics with
+    "close of nil channel" without changing anything, and the nil channel object is never closed. -/
+theorem nil_never_proceeds (evs : List Event) (c v : Nat)
+    (hcur : (reach evs).cur ≠ none) (hc : c < (reach evs).chans.length) (hnil : (getC (reach evs) c).isNil = true) :
+    (step (reach evs) (.recv c)).2 = .blocked ∧ (step (reach evs) (.send c v)).2 = .blocked ∧
+    step (reach evs) (.close c) = (reach evs, .panic .closeNil) ∧
+    (getC (reach evs) c).recvReady = false ∧ (getC (reach evs) c).sendReady = false := by
+  have hinv : ChanInv (getC (reach evs) c) := runAll_inv evs _ init_inv c
+  generalize reach evs = s at *
+  have hq := hinv.nil_empty hnil
+  have hopen := hinv.nil_open hnil
+  unfold step
+  cases hcu : s.cur with
+  | none => exact absurd hcu hcur
+  | some g =>
+    simp only [validChan, hc, decide_true, if_true]
+    refine ⟨?_, ?_, ?_, ?_, ?_⟩
     · unfold doRecv; simp only [hq.1]
       unfold recvTail; simp only [hq.2.2.1, hopen]; simp
     · unfold doSend; simp only [hopen, hq.2.1, hq.2.2.1, hq.2.2.2]; simp
+    · unfold doClose; simp [hnil]
+    · simp [Chan.recvReady, hq.1, hq.2.2.1, hopen]
+    · simp [Chan.sendReady, hq.2.1, hq.2.2.1, hq.2.2.2]
 
-example : ∃ evs, (reach evs).cur ≠ none ∧ (getC (reach evs) 0).isNil = true ∧ (getC (reach evs) 0).closed = false :=
-  ⟨[.spawn, .makechan 1, .send 1 3], by decide, by decide, by decide⟩
+/-! ## wake-up bookkeeping and liveness counters -/
 
-/-! ## stated, not proved (validated on every visited state by the correspondence run, see `globalInv`) -/
+/-- **no_lost_wakeup** (bookkeeping): in every history, every queue entry belongs to a goroutine of the table
+    that is asleep, has not exited, and is suspended in exactly the operation (plain send/receive on that channel
+    with that value, or that case of its select) the entry stands for; no closure is queued twice; goroutines in
+    `$scheduled` are awake, alive and listed once; the running goroutine is awake, alive and not in `$scheduled`.
+    Consequently (`wake_removes_all_entries`) a woken goroutine has no entry left in ANY queue: a select's
+    entries are removed from all queues when one fires. -/
+theorem no_lost_wakeup (evs : List Event) :
+    (∀ k snd e, e ∈ ents (reach evs) k snd → Owned (reach evs) k snd e) ∧
+    (∀ k snd, ((ents (reach evs) k snd).map key).Nodup) ∧
+    (∀ g ∈ (reach evs).scheduled, g < (reach evs).gs.length ∧ (getG (reach evs) g).asleep = false ∧ (getG (reach evs) g).exit = false) ∧
+    (reach evs).scheduled.Nodup ∧
+    (∀ g, (reach evs).cur = some g → (getG (reach evs) g).asleep = false ∧ g ∉ (reach evs).scheduled) := by
+  have h : GInv (reach evs) := runAll_ginv evs _ init_ginv
+  exact ⟨h.own, h.nodup, h.sched, h.schedNodup, fun g hc => ⟨(h.cur g hc).2.1, (h.cur g hc).2.2.2⟩⟩
 
-/-- no_lost_wakeup (bookkeeping half) — NOT proved; checked on every state visited by the correspondence runs -/
-def no_lost_wakeup : Prop := ∀ evs : List Event, entriesOwned (reach evs) = true ∧ schedOK (reach evs) = true
-/-- awake_count — NOT proved; checked on every state visited by the correspondence runs -/
-def awake_count : Prop := ∀ evs : List Event, countersOK (reach evs) = true
-/-- refines_go — NOT proved: every step of the model is a step of GV.Spec.GoChan unless one of the two recorded
-    defects fires; `GV.Spec.GoChanRefine.verdict` decides it per step and is evaluated on every step the
-    correspondence runs execute -/
+/-- a goroutine that is not asleep (running, runnable, freshly woken) owns no queue entry anywhere -/
+theorem wake_removes_all_entries (evs : List Event) (g : Nat) (hawake : (getG (reach evs) g).asleep = false) :
+    ∀ k snd e, e ∈ ents (reach evs) k snd → e.gid ≠ g := by
+  have h : GInv (reach evs) := runAll_ginv evs _ init_ginv
+  generalize reach evs = s at *
+  intro k snd e he hg
+  have := (h.own k snd e he).asleep
+  rw [hg, hawake] at this; cases this
+
+/-- **awake_count**: `$awakeGoroutines` = number of goroutines that are not asleep (running or runnable; exited
+    goroutines are asleep) + pending `$setTimeout` callbacks; `$totalGoroutines` = goroutines that have not exited. -/
+theorem awake_count (evs : List Event) :
+    (reach evs).awake = ((awakeCount (reach evs).gs + userTimers (reach evs).timers : Nat) : Int) ∧
+    (reach evs).total = ((aliveCount (reach evs).gs : Nat) : Int) :=
+  ⟨(runAll_ginv evs _ init_ginv).awake, (runAll_ginv evs _ init_ginv).total⟩
+
+/-- **deadlock_report_iff**: when a goroutine goes to sleep (goroutines.js:145-159 — every blocking operation ends
+    there) in a state whose successor satisfies the counter invariant (every reachable state does, `awake_count`),
+    "all goroutines are asleep" is reported iff main has not finished, every goroutine is asleep and no
+    `$setTimeout` callback is pending — i.e. iff nothing can ever proceed. -/
+theorem deadlock_report_iff (t : State) (g : Nat) (hlt : g < t.gs.length) (he : (getG t g).exit = false)
+    (ha : (getG t g).asleep = true) (hpost : GInv (endSlice t g)) :
+    ((endSlice t g).deadlocks = t.deadlocks + 1 ↔
+      (t.mainFinished = false ∧ (∀ x ∈ (endSlice t g).gs, x.asleep = true) ∧ userTimers (endSlice t g).timers = 0)) ∧
+    ((endSlice t g).deadlocks = t.deadlocks ∨ (endSlice t g).deadlocks = t.deadlocks + 1) := by
+  have hA := hpost.awake
+  obtain ⟨f1, f2, f3, _⟩ := endSlice_sleep_fields t g hlt he ha
+  generalize endSlice t g = u at *
+  rw [f1]
+  have hzero : t.awake - 1 = 0 ↔ ((∀ x ∈ u.gs, x.asleep = true) ∧ userTimers u.timers = 0) := by
+    rw [← f2, hA]
+    constructor
+    · intro h0
+      have h1 : awakeCount u.gs = 0 ∧ userTimers u.timers = 0 := by omega
+      refine ⟨?_, h1.2⟩
+      intro x hx
+      have := (List.countP_eq_zero.mp h1.1) x hx
+      simpa using this
+    · intro ⟨h1, h2⟩
+      have : awakeCount u.gs = 0 := List.countP_eq_zero.mpr (fun x hx => by simp [h1 x hx])
+      omega
+  unfold deadlocksAfter
+  cases hm : t.mainFinished
+  · by_cases h0 : t.awake - 1 = 0
+    · have := hzero.mp h0
+      simp [h0, this.2]; exact this.1
+    · have : ¬((∀ x ∈ u.gs, x.asleep = true) ∧ userTimers u.timers = 0) := fun h => h0 (hzero.mpr h)
+      simp [h0]; intro h1 h2; exact this ⟨h1, h2⟩
+  · simp
+
+/-! ## stated, not proved -/
+
+/-- liveness half of no_lost_wakeup — NOT proved: a sleeping goroutine's operation is not currently possible
+    (needs two further invariants: every sleeping goroutine's entries ARE in the queues, and a channel with both
+    queues non-empty holds entries of a single select). Checked per step by the Go-level verdict of the spec. -/
+def blocked_not_possible : Prop := ∀ (evs : List Event) (g : Nat) (c v : Nat),
+  (getG (reach evs) g).asleep = true → (getG (reach evs) g).exit = false →
+  (getG (reach evs) g).blocked = some (.send c v) → (getC (reach evs) c).isNil = false →
+  (getC (reach evs) c).closed = false ∧ (getC (reach evs) c).recvQ = [] ∧ (getC (reach evs) c).buf.length = (getC (reach evs) c).cap
+
+/-- refines_go — NOT proved: every step of the model is a step of GV.Spec.GoChan;
+    `GV.Spec.GoChanRefine.verdict` decides it per step and is evaluated on every step the correspondence runs execute -/
 def refines_go : Prop := ∀ (evs : List Event) (ev : Event),
-  (∀ c, ev = .close c → NoSelectSend (reach evs) c ∧ (getC (reach evs) c).isNil = false) →
-  (getC (reach evs) 0).closed = false →
   GV.Spec.GoChanRefine.verdict (reach evs) ev (step (reach evs) ev).2 (step (reach evs) ev).1 = none
 
-/-- the invariants hold on a non-trivial reachable state (blocked select with two entries, a runnable goroutine) -/
+/-- the executable invariants hold on a non-trivial reachable state (blocked select with two entries, a runnable goroutine) -/
 example : globalInv (reach [.spawn, .makechan 0, .spawn, .select [.send 1 5, .recv 1] 0]) = true := by decide
+
+/-- regression of the two repaired defects at model level: the closer proceeds and the selector is woken with the
+    pending panic; `close(nil)` panics and leaves `$chanNil` open -/
+example : (step (reach [.spawn, .makechan 0, .spawn, .select [.send 1 5, .recv 0] 0, .next]) (.close 1)).2 = .ok := by decide
+example : (step (reach [.spawn]) (.close 0)).2 = .panic .closeNil := by decide
 
 end GV.Props.C03
